@@ -136,14 +136,15 @@ def run_impl_stateful(cx, lines):
     """The harness keeps the schema and the tree of the preceding `schema` / `tree` lines.  After a crash vcheck restarts it on
     the remaining lines, which then answer `err NoTree`: re-send those with their `schema` and `tree` lines in front."""
     res = cx.run_impl(HARNESS, lines, component=COMP)
+    heads = [(l.split(None, 3)[0], l.split(None, 3)[2]) for l in lines]
     for _ in range(400):
-        redo, cur_tree = [], None
-        for l in lines:
-            t = l.split()
-            if t[2] == "tree": cur_tree = l
-            r = res.get(t[0])
-            if r is not None and r[:2] == ["err", "NoTree"] and t[2] in ("eval", "find", "evalb"):
-                if cur_tree is not None and (not redo or cur_tree not in redo):
+        redo, cur_tree, have = [], None, set()
+        for l, (lid, op) in zip(lines, heads):
+            if op == "tree": cur_tree = l
+            r = res.get(lid)
+            if r is not None and r[:2] == ["err", "NoTree"] and op in ("eval", "find", "evalb"):
+                if cur_tree is not None and id(cur_tree) not in have:
+                    have.add(id(cur_tree))
                     redo.append(cur_tree)
                 redo.append(l)
         if not redo: break
@@ -228,7 +229,7 @@ def run(cx):
     cx.rule("xpath: fixed schema set (2 modules, lists with 1-2 keys, leaf-lists, nested containers, choice, augment; parents with <4 and >=4 children) x "
             "random trees x random context nodes x type-directed expressions of fragment X1 (12 axes, name/*/node()/text() tests, nested predicates, "
             "operators, core function library); non-trivial = distinct (tree, context, expression) with a non-error result")
-    ntrees, nexpr, depth = cx.n(30, 250), cx.n(120, 400), cx.n(3, 4)
+    ntrees, nexpr, depth = cx.n(36, 220), cx.n(140, 400), cx.n(3, 4)
     base = gen_groups(cx, ntrees, nexpr, depth)
     # first obtain node counts so that contexts can be chosen: one load pass
     lines = [schema_line("s")] + ["t%d %s load x %s" % (i, COMP, hexs(x)) for i, (x, v) in enumerate(base)]
@@ -268,11 +269,17 @@ def run(cx):
                         if rng.random() < 0.25: e = X.fn("count", e)
                         items.append(("eval", c, e, {"text": X.render(e, rng)}))
         groups.append((xml, items))
-    results, dumps = run_groups(cx, groups, "xpath")
-    nodeset_law(cx, results)
-    rec_law(cx, results)
-    fastpath_law(cx, cx.n(25, 200))
-    mustwhen_law(cx, cx.n(60, 600))
+        if len(groups) >= 12:
+            results, dumps = run_groups(cx, groups, "xpath")
+            nodeset_law(cx, results)
+            rec_law(cx, results)
+            groups = []
+    if groups:
+        results, dumps = run_groups(cx, groups, "xpath")
+        nodeset_law(cx, results)
+        rec_law(cx, results)
+    fastpath_law(cx, cx.n(30, 300))
+    mustwhen_law(cx, cx.n(80, 800))
     witnesses(cx)
     set_ops(cx)
 
@@ -433,16 +440,22 @@ def pair_groups(cx, nodes, rng):
 
 def fastpath_law(cx, ntrees):
     """(K)+(L): every form goes through the differential; the law on the implementation: all forms of a family select identical node lists."""
+    for start in range(0, ntrees, 15):
+        fastpath_chunk(cx, range(start, min(ntrees, start + 15)))
+
+
+def fastpath_chunk(cx, tis):
     base = []
-    for ti in range(ntrees):
+    for ti in tis:
         rng = cx.sub_rng("fp-tree%d" % ti)
         xml, vals = X.gen_tree(rng, X.SCHEMA1, density=rng.choice([0.6, 0.9]), maxinst=rng.choice([2, 3, 6]))
         base.append(xml)
     lines = [schema_line("s")] + ["t%d %s load x %s" % (i, COMP, hexs(x)) for i, x in enumerate(base)]
     rep = cx.run_impl(HARNESS, lines, component=COMP)
     groups, famidx = [], []
-    for ti, xml in enumerate(base):
-        r = rep.get("t%d" % ti, ["err"])
+    for k, xml in enumerate(base):
+        ti = tis[k]
+        r = rep.get("t%d" % k, ["err"])
         if r[0] != "ok": continue
         nodes = parse_dump(r[1])
         rng = cx.sub_rng("fp-expr%d" % ti)
